@@ -41,6 +41,12 @@
 #ifndef LOOP
 #define LOOP 0
 #endif
+#ifndef AC
+#define AC 0
+#endif
+#ifndef SYMABS
+#define SYMABS 0
+#endif
 #define IN_HANDLER (ROUTE == 3 || ROUTE == 7)
 
 int my_task(void *arg) { (void)arg; return 41; }
@@ -123,11 +129,17 @@ int vf_main(void) {
 #endif
     VF_CHECK(vf_lib_open() == 1 + 2 * (ROUTE == 1 ? 2 : 1), "harness sanity: poll handle and one message pipe per started module");
 
+#if AC < 0
     _Bool ac = nondet_bool();
+#else
+    _Bool ac = AC;
+#endif
     vf_set_errno = true; vf_errno_after_cb = nondet_int();
     m_src_flags fl = (ac ? M_SRC_FD_AUTOCLOSE : 0) | (DUP ? M_SRC_DUP : 0) | (ONESHOT ? M_SRC_ONESHOT : 0);
     k_tmr.clock_id = nondet_bool() ? CLOCK_MONOTONIC : CLOCK_REALTIME; k_tmr.ns = nondet_u64(); VF_ASSUME(k_tmr.ns > 0);
+#if SYMABS
     if (nondet_bool()) fl |= M_SRC_TMR_ABSOLUTE;
+#endif
     k_sgn.signo = nondet_uint(); VF_ASSUME(k_sgn.signo > 0 && k_sgn.signo < 65);
     k_path.path = "/p"; k_path.events = IN_MODIFY;
     k_pid.pid = nondet_int(); VF_ASSUME(k_pid.pid > 0); k_pid.events = 0;
